@@ -75,29 +75,43 @@ class SmartList(_SliceNormalizerMixIn, list):
             super().__setitem__(key, item)
             return
         item = list(item)
-        super().__setitem__(key, item)
         key = self._normalize_slice(key, clamp=True)
-        diff = len(item) + (key.start - key.stop) // key.step
-        if not diff:
-            return
-        for child, (start, stop, _step) in self._children.values():
-            if start > key.stop:
-                self._children[id(child)][1][0] += diff
-            if stop is not None and stop >= key.stop:
-                self._children[id(child)][1][1] += diff
+        super().__setitem__(key, item)
+        if key.step == 1:
+            self._shift_children(key.start, key.stop, len(item))
 
     def __delitem__(self, key):
-        super().__delitem__(key)
         if isinstance(key, slice):
             key = self._normalize_slice(key, clamp=True)
+            super().__delitem__(key)
+            if key.step == 1:
+                self._shift_children(key.start, key.stop, 0)
+            else:
+                diff = (key.stop - key.start) // key.step
+                for _child, sliceinfo in self._children.values():
+                    if sliceinfo[0] > key.start:
+                        sliceinfo[0] -= diff
+                    if sliceinfo[1] is not None and sliceinfo[1] >= key.stop:
+                        sliceinfo[1] -= diff
         else:
-            key = slice(key, key + 1, 1)
-        diff = (key.stop - key.start) // key.step
-        for child, (start, stop, _step) in self._children.values():
-            if start > key.start:
-                self._children[id(child)][1][0] -= diff
-            if stop is not None and stop >= key.stop:
-                self._children[id(child)][1][1] -= diff
+            length = len(self)
+            super().__delitem__(key)
+            if key < 0:
+                key += length
+            self._shift_children(key, key + 1, 0)
+
+    def _shift_children(self, start, stop, size):
+        """Update children after replacing ``[start:stop]`` with *size* items."""
+        diff = size - (stop - start)
+        for _child, sliceinfo in self._children.values():
+            cstart, cstop = sliceinfo[0], sliceinfo[1]
+            if cstart > start:
+                sliceinfo[0] = cstart + diff if cstart >= stop else start + size
+            if cstop is not None:
+                if cstop >= stop:
+                    sliceinfo[1] = cstop + diff
+                elif cstop > start:
+                    sliceinfo[1] = start + size
 
     def __add__(self, other):
         return SmartList(list(self) + other)
